@@ -7,7 +7,7 @@
    give the functions it needs names that extraction cannot rename. *)
 From Coq Require Import ZArith List.
 Import ListNotations.
-From Mds Require Import Stree.StreeModel.
+From Mds Require Import Stree.StreeModel Stree.CursorModel.
 Local Open Scope Z_scope.
 
 Section Big.
@@ -21,10 +21,35 @@ Definition big_add (t : Tree T) (k : T) : res (Tree T * bool) := Add cmp limit t
 Definition big_remove (t : Tree T) (k : T) : res (Tree T * bool) := Remove cmp t k.
 Definition big_root (t : Tree T) : tree T := root t.
 Definition big_len (t : Tree T) : Z := Len t.
+
+(* Round 4: the lines also interleave the rest of the Tree API (Replace, Clear, Clone, Min, Max,
+   IsEmpty, Inorder and InorderAfter with a consumer that may stop) with the cursor operations. *)
+Definition big_replace (t : Tree T) (k : T) : res (Tree T * bool) := Replace cmp limit t k.
+Definition big_clear (t : Tree T) : Tree T := Clear t.
+Definition big_clone (t : Tree T) : Tree T := Clone t.
+Definition big_min (t : Tree T) : option T := Min t.
+Definition big_max (t : Tree T) : option T := Max t.
+Definition big_is_empty (t : Tree T) : bool := IsEmpty t.
+Definition big_inorder {S : Type} (t : Tree T) (f : S -> T -> S * bool) (s : S) : S * bool :=
+  Inorder t f s.
+Definition big_inorder_after {S : Type} (t : Tree T) (k : T) (f : S -> T -> S * bool) (s : S)
+  : res (S * bool) := InorderAfter cmp t k f s.
 End Big.
+
+(* Cursor.Clone under a name of its own: once the tree's Clone is extracted next to it, extraction
+   numbers the three "clone" functions (node, Tree, Cursor) as it pleases. *)
+Definition big_cursor_clone (c : cursor) : cursor := CursorModel.clone c.
 
 Arguments big_new {T} cmp b.
 Arguments big_add {T} cmp limit t k.
 Arguments big_remove {T} cmp t k.
 Arguments big_root {T} t.
 Arguments big_len {T} t.
+Arguments big_replace {T} cmp limit t k.
+Arguments big_clear {T} t.
+Arguments big_clone {T} t.
+Arguments big_min {T} t.
+Arguments big_max {T} t.
+Arguments big_is_empty {T} t.
+Arguments big_inorder {T S} t f s.
+Arguments big_inorder_after {T} cmp {S} t k f s.
